@@ -29,7 +29,8 @@ Record cfg := {
   c_grace : N;          (* log_timestamp_ordering_grace_period in clock ticks; 0 disables the check *)
   c_bits : N;           (* width of the invalid-thread-context counter *)
   c_refresh2 : bool;    (* cache refreshed again after ts_now is read (F5) *)
-  c_catch_all : bool    (* non-std exceptions of user formatters are contained (F4) *)
+  c_catch_all : bool;   (* non-std exceptions of user formatters are contained (F4) *)
+  c_report_first : bool (* failure counters are reported right before an exited thread's context is removed (F9) *)
 }.
 
 (* ------------------------------------------------------------------ state *)
@@ -61,6 +62,10 @@ Inductive pc_t :=
 | PBatch                      (* batch loop head                               (Y4) *)
 | PIdle1 | PIdle2 | PIdle3.   (* idle work: flush sinks / failure counters / emptiness check + clean-up *)
 
+(* ghost counters (C08): statements denied by a full queue, counts reported through the notifier,
+   counts that vanished with a destroyed context *)
+Record ghost := { g_denied : N; g_reported : N; g_lost : N }.
+
 Record st := {
   clock : N;
   th : nat -> thr;
@@ -78,7 +83,8 @@ Record st := {
   (* ghosts *)
   issued : nat -> list N;     (* ids committed to the queue by each thread, in order *)
   delivered : nat -> list N;  (* ids of each thread's events processed by the backend, in order *)
-  plog : list ev              (* all processed events in processing order *)
+  plog : list ev;             (* all processed events in processing order *)
+  gh : ghost
 }.
 
 Definition upd {A} (f : nat -> A) (t : nat) (x : A) : nat -> A := fun u => if Nat.eqb u t then x else f u.
@@ -93,27 +99,35 @@ Definition O_FLAG : N := 4.    (* (unused: the flag is observed only through the
 Definition set_th s f := {| clock := clock s; th := f; registered := registered s; newflag := newflag s;
   invalid_cnt := invalid_cnt s; cache := cache s; pc := pc s; tsnow := tsnow s; lg := lg s; sk := sk s;
   nsinks := nsinks s; nloggers := nloggers s; flags := flags s; obs := obs s;
-  issued := issued s; delivered := delivered s; plog := plog s |}.
+  issued := issued s; delivered := delivered s; plog := plog s; gh := gh s |}.
 Definition set_pc s p := {| clock := clock s; th := th s; registered := registered s; newflag := newflag s;
   invalid_cnt := invalid_cnt s; cache := cache s; pc := p; tsnow := tsnow s; lg := lg s; sk := sk s;
   nsinks := nsinks s; nloggers := nloggers s; flags := flags s; obs := obs s;
-  issued := issued s; delivered := delivered s; plog := plog s |}.
+  issued := issued s; delivered := delivered s; plog := plog s; gh := gh s |}.
 Definition add_obs s o := {| clock := clock s; th := th s; registered := registered s; newflag := newflag s;
   invalid_cnt := invalid_cnt s; cache := cache s; pc := pc s; tsnow := tsnow s; lg := lg s; sk := sk s;
   nsinks := nsinks s; nloggers := nloggers s; flags := flags s; obs := obs s ++ o;
-  issued := issued s; delivered := delivered s; plog := plog s |}.
+  issued := issued s; delivered := delivered s; plog := plog s; gh := gh s |}.
 Definition set_sk s f := {| clock := clock s; th := th s; registered := registered s; newflag := newflag s;
   invalid_cnt := invalid_cnt s; cache := cache s; pc := pc s; tsnow := tsnow s; lg := lg s; sk := f;
   nsinks := nsinks s; nloggers := nloggers s; flags := flags s; obs := obs s;
-  issued := issued s; delivered := delivered s; plog := plog s |}.
+  issued := issued s; delivered := delivered s; plog := plog s; gh := gh s |}.
 Definition set_lg s f := {| clock := clock s; th := th s; registered := registered s; newflag := newflag s;
   invalid_cnt := invalid_cnt s; cache := cache s; pc := pc s; tsnow := tsnow s; lg := f; sk := sk s;
   nsinks := nsinks s; nloggers := nloggers s; flags := flags s; obs := obs s;
-  issued := issued s; delivered := delivered s; plog := plog s |}.
+  issued := issued s; delivered := delivered s; plog := plog s; gh := gh s |}.
 Definition set_cache s c nf := {| clock := clock s; th := th s; registered := registered s; newflag := nf;
   invalid_cnt := invalid_cnt s; cache := c; pc := pc s; tsnow := tsnow s; lg := lg s; sk := sk s;
   nsinks := nsinks s; nloggers := nloggers s; flags := flags s; obs := obs s;
-  issued := issued s; delivered := delivered s; plog := plog s |}.
+  issued := issued s; delivered := delivered s; plog := plog s; gh := gh s |}.
+
+Definition set_gh s g := {| clock := clock s; th := th s; registered := registered s; newflag := newflag s;
+  invalid_cnt := invalid_cnt s; cache := cache s; pc := pc s; tsnow := tsnow s; lg := lg s; sk := sk s;
+  nsinks := nsinks s; nloggers := nloggers s; flags := flags s; obs := obs s;
+  issued := issued s; delivered := delivered s; plog := plog s; gh := g |}.
+Definition gh_denied g := {| g_denied := g_denied g + 1; g_reported := g_reported g; g_lost := g_lost g |}.
+Definition gh_reported g n := {| g_denied := g_denied g; g_reported := g_reported g + n; g_lost := g_lost g |}.
+Definition gh_lost g n := {| g_denied := g_denied g; g_reported := g_reported g; g_lost := g_lost g + n |}.
 
 Definition set_thr_q (x : thr) q' qev' := {| q := q'; qev := qev'; tbuf := tbuf x; tcap := tcap x; texists := texists x;
   tvalid := tvalid x; failc := failc x; pend := pend x; counted := counted x; wflush := wflush x |}.
@@ -165,7 +179,7 @@ Definition fstep (s : st) (o : fop) : st :=
   | FTick d => {| clock := clock s + d; th := th s; registered := registered s; newflag := newflag s;
       invalid_cnt := invalid_cnt s; cache := cache s; pc := pc s; tsnow := tsnow s; lg := lg s; sk := sk s;
       nsinks := nsinks s; nloggers := nloggers s; flags := flags s; obs := obs s;
-      issued := issued s; delivered := delivered s; plog := plog s |}
+      issued := issued s; delivered := delivered s; plog := plog s; gh := gh s |}
   | FClock t e =>
       let x := th s t in
       match pend x with
@@ -181,7 +195,7 @@ Definition fstep (s : st) (o : fop) : st :=
       {| clock := clock s; th := th s; registered := registered s ++ [t]; newflag := true;
          invalid_cnt := invalid_cnt s; cache := cache s; pc := pc s; tsnow := tsnow s; lg := lg s; sk := sk s;
          nsinks := nsinks s; nloggers := nloggers s; flags := flags s; obs := obs s;
-         issued := issued s; delivered := delivered s; plog := plog s |}
+         issued := issued s; delivered := delivered s; plog := plog s; gh := gh s |}
   | FTry t =>
       let x := th s t in
       match pend x with
@@ -201,12 +215,13 @@ Definition fstep (s : st) (o : fop) : st :=
             {| clock := clock s'; th := th s'; registered := registered s'; newflag := newflag s';
                invalid_cnt := invalid_cnt s'; cache := cache s'; pc := pc s'; tsnow := tsnow s'; lg := lg s'; sk := sk s';
                nsinks := nsinks s'; nloggers := nloggers s'; flags := flags s'; obs := obs s';
-               issued := upd (issued s') t (issued s' t ++ [eid e]); delivered := delivered s'; plog := plog s' |}
+               issued := upd (issued s') t (issued s' t ++ [eid e]); delivered := delivered s'; plog := plog s'; gh := gh s' |}
         | None =>
             (* denied: count once per statement, and only ordinary log statements *)
             let inc := match ekind e with KLog => negb (counted x) | _ => false end in
             let x1 := set_thr_q x q1 (qev x) in
             let x2 := if inc then set_thr_failc x1 (failc x1 + 1) else x1 in
+            let s := if inc then set_gh s (gh_denied (gh s)) else s in
             if c_dropping K then
               (* dropped: the call returns false; a control request stays pending (its caller sleeps and retries) *)
               match ekind e with
@@ -230,7 +245,7 @@ Definition fstep (s : st) (o : fop) : st :=
         {| clock := clock s'; th := th s'; registered := registered s'; newflag := newflag s';
            invalid_cnt := (invalid_cnt s' + 1) mod 2 ^ c_bits K; cache := cache s'; pc := pc s'; tsnow := tsnow s'; lg := lg s'; sk := sk s';
            nsinks := nsinks s'; nloggers := nloggers s'; flags := flags s'; obs := obs s';
-           issued := issued s'; delivered := delivered s'; plog := plog s' |}
+           issued := issued s'; delivered := delivered s'; plog := plog s'; gh := gh s' |}
       else if tvalid x then set_th s (upd (th s) t (set_thr_valid x false)) else s
   | FSetLevel l v => set_lg s (upd (lg s) l {| llevel := v; lsinks := lsinks (lg s l) |})
   | FSetSinkLevel k v => set_sk s (upd (sk s) k {| slevel := v; swrites := swrites (sk s k); sthrow := sthrow (sk s k) |})
@@ -316,6 +331,19 @@ Fixpoint dispatch (s : st) (e : ev) (ks : list nat) : st * bool :=
       else dispatch s e r
   end.
 
+(* _check_failure_counter *)
+Fixpoint report_failures (s : st) (l : list nat) : st :=
+  match l with
+  | [] => s
+  | u :: r =>
+      let x := th s u in
+      if failc x =? 0 then report_failures s r
+      else report_failures
+             (set_gh (add_obs (set_th s (upd (th s) u (set_thr_failc x 0)))
+                              [O_NOTE; (if c_dropping K then 1 else 2); failc x])
+                     (gh_reported (gh s) (failc x))) r
+  end.
+
 (* _cleanup_invalidated_thread_contexts *)
 Fixpoint find_dead (s : st) (l : list nat) : st * option nat :=
   match l with
@@ -327,23 +355,26 @@ Fixpoint find_dead (s : st) (l : list nat) : st * option nat :=
            if e && (match tbuf x1 with [] => true | _ => false end) then (s1, Some u) else find_dead s1 r
   end.
 Definition destroy (x : thr) : thr :=
-  {| q := bq_init; qev := []; tbuf := []; tcap := 0; texists := false; tvalid := false; failc := failc x;
+  {| q := bq_init; qev := []; tbuf := []; tcap := 0; texists := false; tvalid := false; failc := 0;
      pend := pend x; counted := counted x; wflush := wflush x |}.
 Definition remove_nat (u : nat) (l : list nat) := filter (fun v => negb (Nat.eqb v u)) l.
 Fixpoint cleanup_loop (fuel : nat) (s : st) : st :=
   match fuel with
   | O => s
   | S f =>
-    let (s1, r) := find_dead s (cache s) in
+    let (s0, r) := find_dead s (cache s) in
     match r with
-    | None => s1
+    | None => s0
     | Some u =>
+        (* F9: pending failure counters are reported before the context (and its counter) goes away *)
+        let s1 := if c_report_first K then report_failures s0 (cache s0) else s0 in
         cleanup_loop f
           (* the context is destroyed: whatever its queue or buffer still held is gone *)
           {| clock := clock s1; th := upd (th s1) u (destroy (th s1 u)); registered := remove_nat u (registered s1); newflag := newflag s1;
              invalid_cnt := (invalid_cnt s1 + 2 ^ c_bits K - 1) mod 2 ^ c_bits K; cache := remove_nat u (cache s1);
              pc := pc s1; tsnow := tsnow s1; lg := lg s1; sk := sk s1; nsinks := nsinks s1; nloggers := nloggers s1;
-             flags := flags s1; obs := obs s1; issued := issued s1; delivered := delivered s1; plog := plog s1 |}
+             flags := flags s1; obs := obs s1; issued := issued s1; delivered := delivered s1; plog := plog s1;
+             gh := gh_lost (gh s1) (failc (th s1 u)) |}
     end
   end.
 Definition cleanup_ctx (s : st) : st :=
@@ -361,6 +392,18 @@ Fixpoint min_front (s : st) (l : list nat) (best : option (nat * ev)) : option (
       end
   end.
 
+(* pop_front of the processed event's buffer (+ ghosts) *)
+Definition pop_event (s : st) (u : nat) (e : ev) : st :=
+  let x := th s u in
+  {| clock := clock s; th := upd (th s) u (set_thr_tbuf x (tl (tbuf x)) (tcap x)); registered := registered s;
+     newflag := newflag s; invalid_cnt := invalid_cnt s; cache := cache s; pc := pc s; tsnow := tsnow s; lg := lg s;
+     sk := sk s; nsinks := nsinks s; nloggers := nloggers s; flags := flags s; obs := obs s; issued := issued s;
+     delivered := upd (delivered s) u (delivered s u ++ [eid e]); plog := plog s ++ [e]; gh := gh s |}.
+Definition set_flag (s : st) (f : N) : st :=
+  {| clock := clock s; th := th s; registered := registered s; newflag := newflag s; invalid_cnt := invalid_cnt s;
+     cache := cache s; pc := pc s; tsnow := tsnow s; lg := lg s; sk := sk s; nsinks := nsinks s; nloggers := nloggers s;
+     flags := flags s ++ [f]; obs := obs s; issued := issued s; delivered := delivered s; plog := plog s; gh := gh s |}.
+
 (* _process_lowest_timestamp_transit_event; returns false when every buffer is empty *)
 Definition process_min (s : st) : st * bool :=
   match min_front s (cache s) None with
@@ -374,19 +417,9 @@ Definition process_min (s : st) : st * bool :=
         | KFlush => flush_sinks s
         | _ => s
         end in
-      let x := th s1 u in
-      let s2 := set_th s1 (upd (th s1) u (set_thr_tbuf x (tl (tbuf x)) (tcap x))) in
-      let s3 := {| clock := clock s2; th := th s2; registered := registered s2; newflag := newflag s2;
-                   invalid_cnt := invalid_cnt s2; cache := cache s2; pc := pc s2; tsnow := tsnow s2; lg := lg s2; sk := sk s2;
-                   nsinks := nsinks s2; nloggers := nloggers s2; flags := flags s2; obs := obs s2;
-                   issued := issued s2; delivered := upd (delivered s2) u (delivered s2 u ++ [eid e]); plog := plog s2 ++ [e] |} in
+      let s3 := pop_event s1 u e in
       match ekind e with
-      | KFlush =>
-          let s4 := cleanup_ctx s3 in
-          ({| clock := clock s4; th := th s4; registered := registered s4; newflag := newflag s4;
-              invalid_cnt := invalid_cnt s4; cache := cache s4; pc := pc s4; tsnow := tsnow s4; lg := lg s4; sk := sk s4;
-              nsinks := nsinks s4; nloggers := nloggers s4; flags := flags s4 ++ [eid e]; obs := obs s4;
-              issued := issued s4; delivered := delivered s4; plog := plog s4 |}, true)
+      | KFlush => (set_flag (cleanup_ctx s3) (eid e), true)
       | _ => (s3, true)
       end
   end.
@@ -414,18 +447,6 @@ Fixpoint all_empty_scan (s : st) (l : list nat) (acc : bool) : st * bool :=
       all_empty_scan s1 r (acc && e && (match tbuf x1 with [] => true | _ => false end))
   end.
 
-(* _check_failure_counter *)
-Fixpoint report_failures (s : st) (l : list nat) : st :=
-  match l with
-  | [] => s
-  | u :: r =>
-      let x := th s u in
-      if failc x =? 0 then report_failures s r
-      else report_failures
-             (add_obs (set_th s (upd (th s) u (set_thr_failc x 0)))
-                      [O_NOTE; (if c_dropping K then 1 else 2); failc x]) r
-  end.
-
 Definition buffered (s : st) : N := fold_right (fun u a => N.of_nat (length (tbuf (th s u))) + a) 0 (cache s).
 
 Definition MAXTS : N := 2 ^ 64 - 1.
@@ -440,7 +461,7 @@ Definition bstep (s : st) : st :=
       {| clock := clock s; th := th s; registered := registered s; newflag := newflag s;
          invalid_cnt := invalid_cnt s; cache := cache s; pc := PTimed; tsnow := tn; lg := lg s; sk := sk s;
          nsinks := nsinks s; nloggers := nloggers s; flags := flags s; obs := obs s;
-         issued := issued s; delivered := delivered s; plog := plog s |}
+         issued := issued s; delivered := delivered s; plog := plog s; gh := gh s |}
   | PTimed =>
       let s1 := if c_refresh2 K then refresh s else s in set_pc s1 (PReading (cache s1))
   | PReading [] =>
